@@ -1,8 +1,12 @@
-//! Drop-in for the subset of `parking_lot` the library uses, with preemption points at every
-//! Mutex acquire/release when no shim lock is held by this thread.
-pub use parking_lot::{Condvar, Once, RwLock, RwLockReadGuard, RwLockWriteGuard};
+//! Drop-in for `parking_lot` with preemption points at every Mutex / RwLock acquire and release
+//! (when no shim lock is held by this thread). The lock types are `lock_api` instantiations over
+//! raw locks that delegate to parking_lot's and call the simulator's hook, so the complete
+//! parking_lot surface (`MutexGuard::unlocked`, `map`, `bump`, `try_lock_for`, upgradable reads,
+//! `const_mutex`, ...) is available to the library under test exactly as with the real crate.
+pub use lock_api;
+pub use parking_lot::{Condvar, FairMutex, FairMutexGuard, MappedFairMutexGuard, MappedReentrantMutexGuard, Once, OnceState, ReentrantMutex, ReentrantMutexGuard, WaitTimeoutResult};
 use std::cell::{Cell, RefCell};
-use std::ops::{Deref, DerefMut};
+use std::time::{Duration, Instant};
 
 thread_local! {
     static HELD: Cell<usize> = const { Cell::new(0) };
@@ -10,28 +14,229 @@ thread_local! {
     static HOOK: RefCell<Option<Box<dyn FnMut(&'static str)>>> = const { RefCell::new(None) };
     pub static POINTS: Cell<u64> = const { Cell::new(0) };
 }
-pub fn set_preempt_hook(h: Option<Box<dyn FnMut(&'static str)>>) { HOOK.with(|x| *x.borrow_mut() = h); }
+pub fn set_preempt_hook(h: Option<Box<dyn FnMut(&'static str)>>) {
+    HOOK.with(|x| *x.borrow_mut() = h);
+}
 fn preempt(kind: &'static str) {
-    if HELD.with(|h| h.get()) != 0 || IN_HOOK.with(|f| f.get()) { return; }
+    if HELD.with(|h| h.get()) != 0 || IN_HOOK.with(|f| f.get()) {
+        return;
+    }
     POINTS.with(|p| p.set(p.get() + 1));
     IN_HOOK.with(|f| f.set(true));
-    HOOK.with(|x| { if let Some(h) = x.borrow_mut().as_mut() { h(kind) } });
+    HOOK.with(|x| {
+        if let Some(h) = x.borrow_mut().as_mut() {
+            h(kind)
+        }
+    });
     IN_HOOK.with(|f| f.set(false));
 }
+fn held(d: isize) {
+    HELD.with(|h| h.set((h.get() as isize + d).max(0) as usize));
+}
 
-#[derive(Debug, Default)]
-pub struct Mutex<T: ?Sized>(parking_lot::Mutex<T>);
-pub struct MutexGuard<'a, T: ?Sized>(Option<parking_lot::MutexGuard<'a, T>>);
-impl<T> Mutex<T> {
-    pub const fn new(t: T) -> Self { Mutex(parking_lot::const_mutex(t)) }
-    pub fn into_inner(self) -> T { self.0.into_inner() }
+// ------------------------------------------------------------------------------------------------
+// Mutex
+// ------------------------------------------------------------------------------------------------
+pub struct RawMutex(parking_lot::RawMutex);
+unsafe impl lock_api::RawMutex for RawMutex {
+    #[allow(clippy::declare_interior_mutable_const)]
+    const INIT: RawMutex = RawMutex(<parking_lot::RawMutex as lock_api::RawMutex>::INIT);
+    type GuardMarker = <parking_lot::RawMutex as lock_api::RawMutex>::GuardMarker;
+    fn lock(&self) {
+        preempt("lock");
+        lock_api::RawMutex::lock(&self.0);
+        held(1);
+    }
+    fn try_lock(&self) -> bool {
+        preempt("try_lock");
+        let ok = lock_api::RawMutex::try_lock(&self.0);
+        if ok {
+            held(1);
+        }
+        ok
+    }
+    unsafe fn unlock(&self) {
+        lock_api::RawMutex::unlock(&self.0);
+        held(-1);
+        preempt("unlock");
+    }
+    fn is_locked(&self) -> bool {
+        lock_api::RawMutex::is_locked(&self.0)
+    }
 }
-impl<T: ?Sized> Mutex<T> {
-    pub fn lock(&self) -> MutexGuard<'_, T> { preempt("lock"); let g = self.0.lock(); HELD.with(|h| h.set(h.get() + 1)); MutexGuard(Some(g)) }
-    pub fn try_lock(&self) -> Option<MutexGuard<'_, T>> { preempt("try_lock"); self.0.try_lock().map(|g| { HELD.with(|h| h.set(h.get() + 1)); MutexGuard(Some(g)) }) }
-    pub fn is_locked(&self) -> bool { self.0.is_locked() }
-    pub fn get_mut(&mut self) -> &mut T { self.0.get_mut() }
+unsafe impl lock_api::RawMutexFair for RawMutex {
+    unsafe fn unlock_fair(&self) {
+        lock_api::RawMutexFair::unlock_fair(&self.0);
+        held(-1);
+        preempt("unlock");
+    }
+    unsafe fn bump(&self) {
+        // "let a waiter in": in the simulation, that is a preemption point with the lock released
+        lock_api::RawMutex::unlock(&self.0);
+        held(-1);
+        preempt("unlock");
+        preempt("lock");
+        lock_api::RawMutex::lock(&self.0);
+        held(1);
+    }
 }
-impl<T: ?Sized> Deref for MutexGuard<'_, T> { type Target = T; fn deref(&self) -> &T { self.0.as_ref().unwrap() } }
-impl<T: ?Sized> DerefMut for MutexGuard<'_, T> { fn deref_mut(&mut self) -> &mut T { self.0.as_mut().unwrap() } }
-impl<T: ?Sized> Drop for MutexGuard<'_, T> { fn drop(&mut self) { drop(self.0.take()); HELD.with(|h| h.set(h.get() - 1)); preempt("unlock"); } }
+unsafe impl lock_api::RawMutexTimed for RawMutex {
+    type Duration = Duration;
+    type Instant = Instant;
+    fn try_lock_for(&self, d: Duration) -> bool {
+        preempt("try_lock");
+        let ok = lock_api::RawMutexTimed::try_lock_for(&self.0, d);
+        if ok {
+            held(1);
+        }
+        ok
+    }
+    fn try_lock_until(&self, t: Instant) -> bool {
+        preempt("try_lock");
+        let ok = lock_api::RawMutexTimed::try_lock_until(&self.0, t);
+        if ok {
+            held(1);
+        }
+        ok
+    }
+}
+pub type Mutex<T> = lock_api::Mutex<RawMutex, T>;
+pub type MutexGuard<'a, T> = lock_api::MutexGuard<'a, RawMutex, T>;
+pub type MappedMutexGuard<'a, T> = lock_api::MappedMutexGuard<'a, RawMutex, T>;
+pub const fn const_mutex<T>(val: T) -> Mutex<T> {
+    Mutex::const_new(<RawMutex as lock_api::RawMutex>::INIT, val)
+}
+
+// ------------------------------------------------------------------------------------------------
+// RwLock
+// ------------------------------------------------------------------------------------------------
+pub struct RawRwLock(parking_lot::RawRwLock);
+macro_rules! acq {
+    ($self:ident, $tr:ident :: $f:ident ( $($a:expr),* )) => {{
+        preempt("lock");
+        lock_api::$tr::$f(&$self.0 $(, $a)*);
+        held(1);
+    }};
+}
+macro_rules! try_acq {
+    ($self:ident, $tr:ident :: $f:ident ( $($a:expr),* )) => {{
+        preempt("try_lock");
+        let ok = lock_api::$tr::$f(&$self.0 $(, $a)*);
+        if ok {
+            held(1);
+        }
+        ok
+    }};
+}
+macro_rules! rel {
+    ($self:ident, $tr:ident :: $f:ident) => {{
+        lock_api::$tr::$f(&$self.0);
+        held(-1);
+        preempt("unlock");
+    }};
+}
+unsafe impl lock_api::RawRwLock for RawRwLock {
+    #[allow(clippy::declare_interior_mutable_const)]
+    const INIT: RawRwLock = RawRwLock(<parking_lot::RawRwLock as lock_api::RawRwLock>::INIT);
+    type GuardMarker = <parking_lot::RawRwLock as lock_api::RawRwLock>::GuardMarker;
+    fn lock_shared(&self) {
+        acq!(self, RawRwLock::lock_shared())
+    }
+    fn try_lock_shared(&self) -> bool {
+        try_acq!(self, RawRwLock::try_lock_shared())
+    }
+    unsafe fn unlock_shared(&self) {
+        rel!(self, RawRwLock::unlock_shared)
+    }
+    fn lock_exclusive(&self) {
+        acq!(self, RawRwLock::lock_exclusive())
+    }
+    fn try_lock_exclusive(&self) -> bool {
+        try_acq!(self, RawRwLock::try_lock_exclusive())
+    }
+    unsafe fn unlock_exclusive(&self) {
+        rel!(self, RawRwLock::unlock_exclusive)
+    }
+    fn is_locked(&self) -> bool {
+        lock_api::RawRwLock::is_locked(&self.0)
+    }
+    fn is_locked_exclusive(&self) -> bool {
+        lock_api::RawRwLock::is_locked_exclusive(&self.0)
+    }
+}
+unsafe impl lock_api::RawRwLockFair for RawRwLock {
+    unsafe fn unlock_shared_fair(&self) {
+        rel!(self, RawRwLockFair::unlock_shared_fair)
+    }
+    unsafe fn unlock_exclusive_fair(&self) {
+        rel!(self, RawRwLockFair::unlock_exclusive_fair)
+    }
+}
+unsafe impl lock_api::RawRwLockDowngrade for RawRwLock {
+    unsafe fn downgrade(&self) {
+        lock_api::RawRwLockDowngrade::downgrade(&self.0)
+    }
+}
+unsafe impl lock_api::RawRwLockRecursive for RawRwLock {
+    fn lock_shared_recursive(&self) {
+        acq!(self, RawRwLockRecursive::lock_shared_recursive())
+    }
+    fn try_lock_shared_recursive(&self) -> bool {
+        try_acq!(self, RawRwLockRecursive::try_lock_shared_recursive())
+    }
+}
+unsafe impl lock_api::RawRwLockTimed for RawRwLock {
+    type Duration = Duration;
+    type Instant = Instant;
+    fn try_lock_shared_for(&self, d: Duration) -> bool {
+        try_acq!(self, RawRwLockTimed::try_lock_shared_for(d))
+    }
+    fn try_lock_shared_until(&self, t: Instant) -> bool {
+        try_acq!(self, RawRwLockTimed::try_lock_shared_until(t))
+    }
+    fn try_lock_exclusive_for(&self, d: Duration) -> bool {
+        try_acq!(self, RawRwLockTimed::try_lock_exclusive_for(d))
+    }
+    fn try_lock_exclusive_until(&self, t: Instant) -> bool {
+        try_acq!(self, RawRwLockTimed::try_lock_exclusive_until(t))
+    }
+}
+unsafe impl lock_api::RawRwLockUpgrade for RawRwLock {
+    fn lock_upgradable(&self) {
+        acq!(self, RawRwLockUpgrade::lock_upgradable())
+    }
+    fn try_lock_upgradable(&self) -> bool {
+        try_acq!(self, RawRwLockUpgrade::try_lock_upgradable())
+    }
+    unsafe fn unlock_upgradable(&self) {
+        rel!(self, RawRwLockUpgrade::unlock_upgradable)
+    }
+    unsafe fn upgrade(&self) {
+        lock_api::RawRwLockUpgrade::upgrade(&self.0)
+    }
+    unsafe fn try_upgrade(&self) -> bool {
+        lock_api::RawRwLockUpgrade::try_upgrade(&self.0)
+    }
+}
+unsafe impl lock_api::RawRwLockUpgradeFair for RawRwLock {
+    unsafe fn unlock_upgradable_fair(&self) {
+        rel!(self, RawRwLockUpgradeFair::unlock_upgradable_fair)
+    }
+}
+unsafe impl lock_api::RawRwLockUpgradeDowngrade for RawRwLock {
+    unsafe fn downgrade_upgradable(&self) {
+        lock_api::RawRwLockUpgradeDowngrade::downgrade_upgradable(&self.0)
+    }
+    unsafe fn downgrade_to_upgradable(&self) {
+        lock_api::RawRwLockUpgradeDowngrade::downgrade_to_upgradable(&self.0)
+    }
+}
+pub type RwLock<T> = lock_api::RwLock<RawRwLock, T>;
+pub type RwLockReadGuard<'a, T> = lock_api::RwLockReadGuard<'a, RawRwLock, T>;
+pub type RwLockWriteGuard<'a, T> = lock_api::RwLockWriteGuard<'a, RawRwLock, T>;
+pub type RwLockUpgradableReadGuard<'a, T> = lock_api::RwLockUpgradableReadGuard<'a, RawRwLock, T>;
+pub type MappedRwLockReadGuard<'a, T> = lock_api::MappedRwLockReadGuard<'a, RawRwLock, T>;
+pub type MappedRwLockWriteGuard<'a, T> = lock_api::MappedRwLockWriteGuard<'a, RawRwLock, T>;
+pub const fn const_rwlock<T>(val: T) -> RwLock<T> {
+    RwLock::const_new(<RawRwLock as lock_api::RawRwLock>::INIT, val)
+}
